@@ -1,6 +1,6 @@
 SPECIFICATION Spec
 CONSTANTS Kinds = {"buf", "hmeta", "reply", "rawdata", "stream", "geninfo", "metabuf", "cxxref", "bare"}
-  NH = 3 NObj = 3 Max = 6 MaxExtra = 1 AsFound = FALSE
+  NH = 3 NObj = 3 Max = 4 MaxExtra = 1 AsFound = FALSE
 VIEW View
 INVARIANTS TypeOK AliveIffReferenced CountExact NoDangling ObsAgrees
 PROPERTIES RefusedUnchanged DestroyedOnce NoResurrection ReplaceOnce
